@@ -1,5 +1,5 @@
 (* C19 - Pixel word layout, byte views and PNG export agree. *)
-Require Import RQ.Base RQ.Pixel RQ.PixelFormat RQ.MiscProofs.
+Require Import RQ.Base RQ.Pixel RQ.PixelProofs RQ.PixelFormat RQ.MiscProofs RQ.FormatProofs.
 
 (* the byte view of a word is B, G, R, A (little endian) and determines the word *)
 Theorem C19_bytes_are_bgra : forall p, word_bytes p = [get_b p; get_g p; get_r p; get_a p].
@@ -25,5 +25,41 @@ Proof. exact png_is_row_major. Qed.
 Theorem C19_from_vec : forall w h v, (zlen v = w * h -> from_vec w h v = v) /\ (0 <= w * h -> zlen (from_vec w h v) = w * h).
 Proof. exact (fun w h v => conj (from_vec_exact w h v) (from_vec_length w h v)). Qed.
 Print Assumptions C19_from_vec.
+(* SolidSource::to_u32 is the word (A<<24)|(R<<16)|(G<<8)|B, and its byte view is B, G, R, A *)
+Theorem C19_to_u32_word : forall a r g b, byte a -> byte r -> byte g -> byte b ->
+  to_u32 a r g b = 16777216 * a + 65536 * r + 256 * g + b /\ word_bytes (to_u32 a r g b) = [b; g; r; a].
+Proof. exact (fun a r g b Ha Hr Hg Hb => conj (to_u32_value a r g b Ha Hr Hg Hb) (to_u32_bytes a r g b Ha Hr Hg Hb)). Qed.
+Print Assumptions C19_to_u32_word.
+(* four bytes determine the word whose bytes they are (the other direction of the round trip) *)
+Theorem C19_bytes_word_roundtrip : forall b0 b1 b2 b3, byte b0 -> byte b1 -> byte b2 -> byte b3 ->
+  word_bytes (bytes_word [b0; b1; b2; b3]) = [b0; b1; b2; b3].
+Proof. exact bytes_word_roundtrip. Qed.
+Print Assumptions C19_bytes_word_roundtrip.
+(* a store of byte v at position j of a word through the byte view (store_byte = the word set_byte writes back):
+   reading the bytes back gives v at j and the old bytes elsewhere ... *)
+Theorem C19_byte_store_visible_in_byte_view : forall w j v, 0 <= j < 4 -> byte v ->
+  word_bytes (store_byte w j v) = splice (word_bytes w) j [v].
+Proof. exact store_byte_visible. Qed.
+Print Assumptions C19_byte_store_visible_in_byte_view.
+(* ... and through the word view: position 0,1,2,3 is channel B,G,R,A; that channel becomes v, the other three keep
+   their values (for every word, also one wider than 32 bits) *)
+Theorem C19_byte_store_visible_in_word_view : forall w v, byte v ->
+  (get_b (store_byte w 0 v) = v /\ get_g (store_byte w 0 v) = get_g w /\ get_r (store_byte w 0 v) = get_r w /\ get_a (store_byte w 0 v) = get_a w) /\
+  (get_b (store_byte w 1 v) = get_b w /\ get_g (store_byte w 1 v) = v /\ get_r (store_byte w 1 v) = get_r w /\ get_a (store_byte w 1 v) = get_a w) /\
+  (get_b (store_byte w 2 v) = get_b w /\ get_g (store_byte w 2 v) = get_g w /\ get_r (store_byte w 2 v) = v /\ get_a (store_byte w 2 v) = get_a w) /\
+  (get_b (store_byte w 3 v) = get_b w /\ get_g (store_byte w 3 v) = get_g w /\ get_r (store_byte w 3 v) = get_r w /\ get_a (store_byte w 3 v) = v).
+Proof. exact store_byte_channels. Qed.
+Print Assumptions C19_byte_store_visible_in_word_view.
+(* the byte view is laid out word after word: byte 4i+j of the view is byte j of word i *)
+Theorem C19_byte_view_layout : forall buf i j, (i < length buf)%nat -> (j < 4)%nat ->
+  nth (4 * i + j) (byte_view buf) 0 = nth j (word_bytes (nth i buf 0)) 0.
+Proof. exact byte_view_nth. Qed.
+Print Assumptions C19_byte_view_layout.
+(* set_byte writes exactly that word *)
+Theorem C19_set_byte_is_store_byte : forall buf k v,
+  set_byte buf k v = splice buf (k / 4) [store_byte (zn buf (k / 4)) (k mod 4) v].
+Proof. exact (fun buf k v => eq_refl). Qed.
+Example C19_store_example : store_byte 2155876368 2 255 = 2164199440 /\ get_r 2164199440 = 255 /\ get_g 2164199440 = 16.
+Proof. vm_compute. repeat split; reflexivity. Qed.
 Example C19_example : word_bytes 2155876368 = [16; 16; 128; 128] /\ png_pixel 2155876368 = [255; 31; 31; 128].
 Proof. vm_compute. split; reflexivity. Qed.
